@@ -144,8 +144,25 @@ let fmt_perr = function
   | PUnequalDimensions (f, t) -> "ERR unequal " ^ zs f ^ " " ^ zs t
   | PZero -> "ERR zero"
 
+(* spectra holding infinities / NaN: the extended-value model (Model/Ext.v) *)
+let nonfinite data = List.exists (fun t -> t = "inf" || t = "-inf" || t = "nan") (S.split_on_char ',' data)
+let parse_ev tok = match tok with "inf" -> PInf | "-inf" -> NInf | "nan" -> NaN | _ -> Fin (parse_q tok)
+let fmt_ev = function Fin q -> fmt_q q | PInf -> "inf" | NInf -> "-inf" | NaN -> "nan"
+let mk_espec sh data : espectrum = { adata = List.map parse_ev (S.split_on_char ',' data); ashape = parse_list sh }
+let fmt_espec (y : espectrum) = fmt_list y.ashape ^ " " ^ (if y.adata = [] then "-" else S.concat "," (List.map fmt_ev y.adata))
+let ev_fill = function
+  | "nan" -> NaN | "zero" -> Fin (parse_q "0") | "minus-one" -> Fin (parse_q "-1") | "inf" -> PInf
+  | _ -> failwith "bad fill"
+
 let run_spectrum toks =
   match toks with
+  | ["fold"; sh; data; fill] when nonfinite data -> add (fmt_espec (e_fold (mk_espec sh data) (ev_fill fill)))
+  | ["marg"; sh; data; axes] when nonfinite data ->
+    (match e_marginalize (mk_espec sh data) (parse_list axes) with
+     | Inl y -> add ("OK " ^ fmt_espec y)
+     | Inr (DuplicateAxis a) -> add ("ERR dup " ^ zs a)
+     | Inr (AxisOutOfBounds (a, d)) -> add ("ERR oob " ^ zs a ^ " " ^ zs d)
+     | Inr (TooManyAxes (n, d)) -> add ("ERR many " ^ zs n ^ " " ^ zs d))
   | ["fold"; sh; data; fill] ->
     let x = mk_spec sh data in
     let cells = folded_cells x (fill_of fill) in
